@@ -14,8 +14,10 @@ RULE = (
     "nonorthogonal_* settings (including returning to an earlier value and changing "
     "nonorthogonal_spacing_method), each followed by calculateRZ() as the GUI does, optionally with "
     "geometry() in between (the GUI's Write Grid), plus steps whose dictionary also changes a setting that is "
-    "not nonorthogonal_*. Oracle: the same base built from scratch with the final non-orthogonal settings. "
-    "non-trivial = history of >= 2 steps with a setting changed twice that completed; distinct = (base, history) hash."
+    "not nonorthogonal_*. A step hands over either the complete option dictionary (GUI) or only the "
+    "nonorthogonal_* keys; 'reset' steps drop every earlier nonorthogonal_* value (back to defaults), down to "
+    "redistributePoints({}). Oracle: the same base built from scratch with the final non-orthogonal settings. "
+    "non-trivial = a completed history with a setting changed twice or a reset; distinct = (base, history) hash."
 )
 
 SETTINGS = {
@@ -55,6 +57,14 @@ def histories(tier, seed):
             step = {"set": {key: draw(st.sampled_from(SETTINGS[key])) for key in ks}}
             if draw(st.integers(0, 3)) == 0:
                 step["geometry_before"] = True
+            if draw(st.booleans()):
+                step["style"] = "minimal"  # only the nonorthogonal_* keys are handed over
+            if k > 0 and draw(st.integers(0, 2)) == 0:
+                # return to the defaults: every earlier nonorthogonal_* value is dropped; with an empty
+                # 'set' and the minimal style this is redistributePoints({})
+                step["reset"] = True
+                if draw(st.booleans()):
+                    step["set"] = {}
             hist.append(step)
         other = draw(st.integers(0, 4)) == 0
         if other:
@@ -62,8 +72,15 @@ def histories(tier, seed):
             hist[-1]["set"][ok] = draw(st.sampled_from(OTHER[ok]))
         return {"family": "G", "entry": "regrid-history", "eq": eq, "options": o, "history": hist, "changes_other_setting": other}
 
-    n = 6 if tier == "quick" else 60
-    return corpus.collect(build(), n, seed + 1500, keyfn=lambda d: "%s/%d/%s" % (d["eq"]["topology"], len(d["history"]), d["changes_other_setting"]))
+    n = 8 if tier == "quick" else 64
+
+    def key(d):
+        reset = any(s_.get("reset") for s_ in d["history"])
+        empty = any(s_.get("reset") and not s_["set"] and s_.get("style") == "minimal" for s_ in d["history"])
+        k = "reset=%s/other=%s" % ("empty-dict" if empty else reset, d["changes_other_setting"])
+        return k if tier == "quick" else "%s/%s/%d" % (k, d["eq"]["topology"], len(d["history"]))
+
+    return corpus.collect(build(), n, seed + 1500, keyfn=key, oversample=12)
 
 
 def run(run):
@@ -73,9 +90,13 @@ def run(run):
         fresh = copy.deepcopy(h)
         fresh["entry"] = "api"
         final = {}
+        base = dict(h["options"])
         for step in h["history"]:
+            if step.get("reset"):
+                final = {}
+                base = {k: v for k, v in base.items() if not k.startswith("nonorthogonal_")}
             final.update({k: v for k, v in step["set"].items() if k.startswith("nonorthogonal_")})
-        fresh["options"] = dict(h["options"], **final)
+        fresh["options"] = dict(base, **final)
         fresh.pop("history")
         fresh.pop("changes_other_setting")
         descs += [h, fresh]
@@ -87,7 +108,10 @@ def run(run):
         changed_twice = len(h["history"]) >= 2 and any(
             sum(1 for s in h["history"] if k in s["set"]) >= 2 for k in SETTINGS
         )
+        has_reset = any(s_.get("reset") for s_ in h["history"])
         run.bump("history/%s/steps=%d/%s,%s" % (h["eq"]["topology"], len(h["history"]), a.outcome, b.outcome))
+        for s_ in h["history"]:
+            run.bump("step/%s%s%s" % (s_.get("style", "full-dict"), "/reset" if s_.get("reset") else "", "/empty-set" if not s_["set"] else ""))
         if "timeout" in (a.outcome, b.outcome):
             run.inconclusive += 1
             run.count(h, nontrivial=False)
@@ -110,7 +134,7 @@ def run(run):
             run.count(h, nontrivial=False)
             run.bump("history-raised/%s@%s" % (a.status.get("exc_type"), a.status.get("exc_at")))
             continue
-        run.count(h, nontrivial=changed_twice and b.outcome == "grid", key=gridlab.desc_id(h))
+        run.count(h, nontrivial=(changed_twice or has_reset) and b.outcome == "grid", key=gridlab.desc_id(h))
         if len(run.samples) < 4:
             run.sample({"topology": h["eq"]["topology"], "history": h["history"]})
         mv = a.status.get("region_end_movement", [])
